@@ -2,6 +2,9 @@
 import vlib
 
 def run(ctx):
+    # the byte-offset scanners (Sub, Mask, SubByDisplay) as step-level cursor machines: TLC checks rune-boundary cursors,
+    # progress, termination and refinement of the declarative definitions used below
+    ctx.model_check("RuneOps", "ByteScan", "MC_scan.cfg", tag="bytescan")
     vlib.case_component(ctx, "RuneOps", "RuneOps", "RuneOps", ["MC_valid.cfg", "MC_invalid.cfg"] if ctx.tier == "quick" else ["MC_valid5.cfg", "MC_invalid5.cfg"], "c17")
     ctx.assumptions += ["strings are token sequences (rune width 1..4, or an invalid byte) up to 4 (quick) / 5 (thorough) tokens, concretised with several runes per class chosen from the seed",
                         "for strings that are not valid UTF-8 only 'no panic' is checked", "the snake/camel round trip is checked on [a-z][a-z0-9]*(_[a-z][a-z0-9]*)* only"]
